@@ -51,7 +51,9 @@ type c18Worker struct {
 	// tclass is the result type of the exclusive decode the worker is in (0:
 	// *c18Val, 1: *c18Other); the pending table is keyed by (reference, type)
 	tclass int
-	waitTc int // the type class of the entry the worker waits for
+	waitTc int          // the type class of the entry the worker waits for
+	opIdx  int          // index of the operation the worker is executing
+	waited map[int]bool // operations during which the worker parked at excl.wait
 }
 
 type c18Event struct {
@@ -88,6 +90,7 @@ type c18Result struct {
 	ret      int64 // controller step at return
 	ownRuns  int   // decode-function runs performed by this call
 	panicked string
+	waited   bool // the call found an exclusive decode in flight and waited for it
 	wasAlone bool
 }
 
@@ -161,7 +164,8 @@ func c18Execute(g Getter, prog [][]c18Op, prefix []int, pick func(n int) int) *c
 			byGoid[c18Goid()] = w // serialised by the start protocol
 			registered <- struct{}{}
 			<-w.grant
-			for _, op := range ops {
+			for oi, op := range ops {
+				w.opIdx = oi
 				res := func() (res c18Result) {
 					// a panic in the library must not take the controller down with it
 					defer func() {
@@ -172,6 +176,7 @@ func c18Execute(g Getter, prog [][]c18Op, prefix []int, pick func(n int) int) *c
 					}()
 					return c18RunOp(x, op, w.id, &step, run, &mu, &w.tclass)
 				}()
+				res.waited = w.waited[oi]
 				resCh[w.id] = append(resCh[w.id], res)
 				if res.panicked != "" {
 					break
@@ -247,6 +252,10 @@ func c18Execute(g Getter, prog [][]c18Op, prefix []int, pick func(n int) int) *c
 						run.protocol = fmt.Sprintf("worker %d waits for an exclusive decode of object %d although none is in flight", ev.w.id, ev.ref.Number())
 						return run
 					}
+					if ev.w.waited == nil {
+						ev.w.waited = map[int]bool{}
+					}
+					ev.w.waited[ev.w.opIdx] = true
 					ev.w.waitTc = wtc
 					ev.w.waitOwner = lastRegistrant[refType{ev.ref, wtc}]
 					ev.w.waitSeq = doneCnt[ownerRef{ev.w.waitOwner, ev.ref, wtc}]
@@ -516,6 +525,10 @@ func c18Judge(c *kit.Case, p c18Program, run *c18Run, objs c18Getter) {
 	for i, res := range run.results {
 		// chains: reference 3 is cached under 3 and under 1
 		k := key{res.op.ref, "val"}
+		if res.waited && res.ownRuns > 0 && (res.op.kind == 'X' || res.op.kind == 'Y' || res.op.kind == 'Z') {
+			// a caller that waited for the decode in flight shares its outcome
+			c.Violationf("exclusive-waiter-ran-the-function/"+p.name, "%s\n%v waited for the exclusive decode in flight and then ran the decode function itself (%d runs)", ctx(), res.op, res.ownRuns)
+		}
 		if res.panicked != "" {
 			c.Violationf("panic/"+p.name, "%s\n%v panicked: %s", ctx(), res.op, res.panicked)
 			continue
